@@ -377,6 +377,17 @@ class Model:
                 if got != want:
                     V.append(("py-index:%s" % ("out-of-range-accepted" if want is None else "wrong-slot"), "sim.particles[%d] with N=%d gives slot %s, expected %s after %s [%s]" % (k, n, got, "an exception" if want is None else want, op, tag)))
                     break
+        if front == "py" and sim.N <= 6:
+            # slices of the container are Python slices of the particle list
+            hs = [q.hash.value for q in (sim.particles[k] for k in range(sim.N))]
+            for sl in (slice(None, -1), slice(1, -1), slice(None, None, -1), slice(-2, None), slice(-100, 2), slice(1, None), slice(None, None, 2), slice(5, 1, -2), slice(0, 100)):
+                try:
+                    got = [q.hash.value for q in sim.particles[sl]]
+                except Exception as e:     # noqa
+                    got = "%s" % type(e).__name__
+                if got != hs[sl]:
+                    V.append(("py-slice", "sim.particles[%s:%s:%s] with N=%d gives hashes %s, a list gives %s after %s [%s]" % (sl.start, sl.stop, sl.step, sim.N, got, hs[sl], op, tag)))
+                    break
         if kind in ("remove", "remove_hash", "remove_all", "step", "update_tree") and sim.N_active > sim.N and getattr(self, "_nact_ok", True):
             # the force and energy loops run to N_active: a count beyond N makes them read slots that hold no particle
             V.append(("%s:N_active>N" % kind, "N_active=%d exceeds N=%d after %s [%s]" % (sim.N_active, sim.N, op, tag)))
